@@ -707,6 +707,108 @@ def tr_gen_sub(tree):
     return "Definition gen_sub_src (osub plain : bool) (n1 n2 : nat) (args_ok : bool) : bool :=\n  " + go(body[2:]) + "."
 
 
+# ---- typeorder (mro.py): the generic-alias block `if o1:` ------------------------------------------------------------
+def tr_gen_order(tree):
+    """-> gen_order_src (o2p : bool) (ot2 oo : order) (e1 e2 : bool) (n1 n2 : nat) (merged : order) : order
+       o2p = bool(o2), ot2 = typeorder(o1, t2), oo = typeorder(o1, o2), e1 / e2 = args1 / args2 non-empty, n1 / n2 = their
+       lengths, merged = Order.merge([typeorder(a1, a2) for a1, a2 in zip(args1, args2)])"""
+    fn = None
+    for n in tree.body:
+        if isinstance(n, ast.FunctionDef) and n.name == "typeorder":
+            fn = n
+    if fn is None:
+        raise Unsupported("typeorder not found")
+    blk = [st for st in fn.body if isinstance(st, ast.If) and ast.unparse(st.test) == "o1" and not st.orelse]
+    if len(blk) != 1:
+        raise Unsupported("the `if o1:` block")
+    CALLS = {"typeorder(o1, t2)": "ot2", "typeorder(o1, o2)": "oo"}
+    SKIP = {"args1 = get_args(t1)", "args2 = get_args(t2)", "ords = [typeorder(a1, a2) for a1, a2 in zip(args1, args2)]"}
+    ATOMS = {"o2": "o2p", "not o2": "negb o2p", "args1": "e1", "args2": "e2", "not args1": "negb e1", "not args2": "negb e2"}
+
+    def oconst(e, env):
+        # Order.X, or <variable holding an order>.X (the enum member reached through an instance)
+        if isinstance(e, ast.Attribute) and isinstance(e.value, ast.Name) and e.attr in ORDERS and (e.value.id == "Order" or e.value.id in env):
+            return e.attr
+        raise Unsupported("order constant " + ast.unparse(e))
+
+    def oexpr(e, env):
+        src = ast.unparse(e)
+        if src in CALLS:
+            return CALLS[src]
+        if isinstance(e, ast.Name) and e.id in env:
+            return env[e.id]
+        if src == "Order.merge(ords)":
+            return "merged"
+        return oconst(e, env)
+
+    def num(e):
+        src = ast.unparse(e)
+        if src == "len(args1)":
+            return "n1"
+        if src == "len(args2)":
+            return "n2"
+        raise Unsupported("operand " + src)
+
+    def cond(e, env):
+        src = ast.unparse(e)
+        if src in ATOMS:
+            return ATOMS[src]
+        if isinstance(e, ast.Compare) and len(e.ops) == 1 and isinstance(e.ops[0], (ast.Is, ast.IsNot, ast.Eq, ast.NotEq)) \
+                and not ast.unparse(e.left).startswith("len("):
+            left = e.left
+            if isinstance(left, ast.NamedExpr):
+                env[left.target.id] = oexpr(left.value, env)
+                lv = env[left.target.id]
+            else:
+                lv = oexpr(left, env)
+            c = oconst(e.comparators[0], env)
+            pos = isinstance(e.ops[0], (ast.Is, ast.Eq))
+            return f"order_eqb {lv} {c}" if pos else f"negb (order_eqb {lv} {c})"
+        if isinstance(e, ast.Compare) and len(e.ops) == 1:
+            a, b = num(e.left), num(e.comparators[0])
+            tbl = {ast.Eq: f"Nat.eqb {a} {b}", ast.NotEq: f"negb (Nat.eqb {a} {b})", ast.Lt: f"Nat.ltb {a} {b}", ast.Gt: f"Nat.ltb {b} {a}",
+                   ast.LtE: f"Nat.leb {a} {b}", ast.GtE: f"Nat.leb {b} {a}"}
+            if type(e.ops[0]) in tbl:
+                return "(" + tbl[type(e.ops[0])] + ")"
+        if isinstance(e, ast.BoolOp):
+            return "(" + (" && " if isinstance(e.op, ast.And) else " || ").join(cond(v, env) for v in e.values) + ")"
+        if isinstance(e, ast.UnaryOp) and isinstance(e.op, ast.Not):
+            return "negb (" + cond(e.operand, env) + ")"
+        raise Unsupported("condition " + src[:60])
+
+    def go(b, env):
+        """sequence of statements that ends by returning on every path -> Coq expression"""
+        b = [st for st in b if ast.unparse(st) not in SKIP and not (isinstance(st, ast.Expr) and isinstance(st.value, ast.Constant))]
+        if not b:
+            raise Unsupported("a path does not return")
+        st = b[0]
+        if isinstance(st, ast.Return):
+            return oexpr(st.value, env)
+        if isinstance(st, ast.Assign) and len(st.targets) == 1 and isinstance(st.targets[0], ast.Name):
+            env = dict(env)
+            env[st.targets[0].id] = oexpr(st.value, env)
+            return go(b[1:], env)
+        if isinstance(st, ast.If):
+            env = dict(env)
+            c = cond(st.test, env)
+            body_returns = isinstance(st.body[-1], ast.Return)
+            if st.orelse:
+                return f"(if {c} then {go(st.body, env)} else {go(st.orelse + b[1:] if not isinstance(st.orelse[-1], ast.Return) else st.orelse, env)})"
+            if body_returns:
+                return f"(if {c} then {go(st.body, env)} else {go(b[1:], env)})"
+            # a conditional re-assignment: if c: v = X
+            if len(st.body) == 1 and isinstance(st.body[0], ast.Assign) and len(st.body[0].targets) == 1 and isinstance(st.body[0].targets[0], ast.Name):
+                v = st.body[0].targets[0].id
+                old = env.get(v)
+                if old is None:
+                    raise Unsupported("conditional assignment to an unbound variable")
+                env[v] = f"(if {c} then {oexpr(st.body[0].value, env)} else {old})"
+                return go(b[1:], env)
+        raise Unsupported("statement " + ast.unparse(st)[:60])
+    return ("Definition gen_order_src (o2p : bool) (ot2 oo : order) (e1 e2 : bool) (n1 n2 : nat) (merged : order) : order :=\n  "
+            + go(blk[0].body, {}) + ".")
+
+
 HEADER = """(* GENERATED by vlib/translator/leaf.py from /repo/src/ovld/{mro,typemap,dependent,types}.py on every run -- do not edit.
    Proofs/LeafAgree.v proves these equal to the hand-written definitions the model uses. *)
 From Coq Require Import ZArith List Bool Arith.
@@ -735,6 +837,7 @@ FALLBACK = {
     "edge": "Definition edge_src (o : order) : option bool := edge_dir o.",
     "level": "Definition level_index_src (nr r : nat) : nat := level_index nr r.",
     "gen_sub": "Definition gen_sub_src (osub plain : bool) (n1 n2 : nat) (args_ok : bool) : bool := gen_sub_decide osub plain n1 n2 args_ok.",
+    "gen_order": "Definition gen_order_src (o2p : bool) (ot2 oo : order) (e1 e2 : bool) (n1 n2 : nat) (merged : order) : order := gen_order_decide o2p ot2 oo e1 e2 n1 n2 merged.",
     "tail": "Definition cls_tail_src (s12 s21 : bool) : order := if s12 && s21 then SAME else if s12 then LESS else if s21 then MORE else NONE.",
 }
 
@@ -759,6 +862,7 @@ def regenerate():
             ("tail", lambda: tr_tail(mro_tree)),
             ("missing", lambda: tr_missing(tm_tree)),
             ("gen_sub", lambda: tr_gen_sub(mro_tree)),
+            ("gen_order", lambda: tr_gen_order(mro_tree)),
             ("edge", lambda: tr_edge(mro_tree)),
             ("level", lambda: tr_level(tm_tree)),
             ("dep_lt", lambda: tr_dep_lt(dep_tree)),
